@@ -65,7 +65,7 @@ func builtinDateToUTCString(call FunctionCall) Value {
 func builtinDateToISOString(call FunctionCall) Value {
 	date := dateObjectOf(call.runtime, call.thisObject())
 	if date.isNaN {
-		return stringValue("Invalid Date")
+		panic(call.runtime.panicRangeError("Invalid time value"))
 	}
 	return stringValue(date.Time().Format("2006-01-02T15:04:05.000Z"))
 }
